@@ -18,6 +18,7 @@ func c12(c *Ctx) {
 	c.eofTermination("R12.3", "rfc5322")
 	c.listWriterDiscipline()
 	c.noNegativeIndex("R12.8")
+	c.headerOffsetsInRange("R12.9")
 	c.boundedRecursion("R12.1", []string{"rfc5322", "rfc822", "imap", "rfcparser"}, []string{"rfc5322", "rfc822", "imap"}, 5)
 }
 
@@ -74,4 +75,79 @@ func (c *Ctx) noNegativeIndex(rule string) {
 	}
 	R.Stats[rule+" tabled subtractive index sites"] = nt
 	R.Min(rule, "subtractive index expressions judged", n, 2)
+}
+
+// headerOffsetsInRange (R12.9): the offsets a header entry records never point past the header.
+func (c *Ctx) headerOffsetsInRange(rule string) {
+	P, R := c.P, c.R
+	R.Explain(rule, "header entries stay inside the header: in rfc822.(*headerParser).next every value stored into parsedHeaderEntry.valueEnd / valueStart (the bounds with which the value is later sliced out of the header bytes) is proved <= len(hp.header) from the branch conditions on every path (linear-inequality entailment with a case split over the loop phis); copies of the entry's own keyStart/keyEnd are earlier offsets and are not judged, and the one store of the cursor hp.offset (prelude line, taken right after the line feed read at an index below the length) is tabled.  An offset that overshoots by one - the line break after a trailing '\\r' consumed without checking that a byte is left - slices one byte past the literal: a panic when the literal fills its buffer (APPEND), a stray byte of whatever follows otherwise.")
+	f := c.fn(rule, "rfc822.(*headerParser).next")
+	if f == nil {
+		return
+	}
+	hdrFld := c.fieldOf("rfc822", "headerParser", "header")
+	// len(hp.header) values
+	var lens []ssa.Value
+	for _, b := range f.Blocks {
+		for _, in := range b.Instrs {
+			if call, ok := in.(*ssa.Call); ok {
+				if bi, ok := call.Call.Value.(*ssa.Builtin); ok && bi.Name() == "len" {
+					if ld, ok := call.Call.Args[0].(*ssa.UnOp); ok && fieldAddrIs(ld.X, hdrFld) {
+						lens = append(lens, call)
+					}
+				}
+			}
+		}
+	}
+	if len(lens) == 0 {
+		R.Fail(rule, c.name(f)+"|len(header)", P.Pos(f.Pos()), "next no longer takes len(hp.header): the rule cannot be evaluated")
+		return
+	}
+	n, copies, tabled := 0, 0, 0
+	for _, b := range f.Blocks {
+		for _, in := range b.Instrs {
+			st, ok := in.(*ssa.Store)
+			if !ok {
+				continue
+			}
+			fa, ok := st.Addr.(*ssa.FieldAddr)
+			if !ok {
+				continue
+			}
+			fv := fieldOfAddr(fa)
+			if fv == nil || (fv.Name() != "valueEnd" && fv.Name() != "valueStart") || !engine.IsNamed(fa.X.Type(), "rfc822", "parsedHeaderEntry") {
+				continue
+			}
+			if k, isK := st.Val.(*ssa.Const); isK && k.Value != nil && k.Int64() <= 0 {
+				continue
+			}
+			// a copy of an earlier offset of the same entry (keyStart / keyEnd): offsets only grow while an entry is read
+			if ld, isLd := st.Val.(*ssa.UnOp); isLd {
+				if fa2, ok := ld.X.(*ssa.FieldAddr); ok && fa2.X == fa.X {
+					if f2 := fieldOfAddr(fa2); f2 != nil && (f2.Name() == "keyStart" || f2.Name() == "keyEnd") {
+						copies++
+						continue
+					}
+				}
+				// tabled: the parser's own cursor right after it consumed the '\n' it had just read at hp.offset < len
+				if fa2, ok := ld.X.(*ssa.FieldAddr); ok {
+					if f2 := fieldOfAddr(fa2); f2 != nil && f2.Name() == "offset" {
+						tabled++
+						continue
+					}
+				}
+			}
+			n++
+			ok2 := false
+			for _, l := range lens {
+				if st.Val == l || engine.ProveLEAt(f, b, st.Val, l) {
+					ok2 = true
+				}
+			}
+			R.Check(ok2, rule, c.name(f)+"|"+fv.Name()+" <= len(header)|"+valExpr(st.Val, 0), P.Pos(st.Pos()), "offset proved within the header", "the offset stored in "+fv.Name()+" is not proved <= len(hp.header): the header value is later sliced past the end of the header bytes")
+		}
+	}
+	R.Stats[rule+" copies of keyStart/keyEnd (not judged)"] = copies
+	R.Stats[rule+" stores of the cursor hp.offset (tabled: taken right after consuming the line feed read at an index < len)"] = tabled
+	R.Min(rule, "offset stores judged", n, 3)
 }
